@@ -239,9 +239,10 @@ class QuicSession:
 
     def packet_isserver(self, packet, dcid):
         # a zero-length DCID says nothing about the direction, fall through to the addresses
-        if len(dcid) > 0 and dcid in self.server_cids:
+        # a CID both endpoints chose says nothing about the direction either
+        if len(dcid) > 0 and dcid in self.server_cids and dcid not in self.client_cids:
             return False
-        elif len(dcid) > 0 and dcid in self.client_cids:
+        elif len(dcid) > 0 and dcid in self.client_cids and dcid not in self.server_cids:
             return True
         elif packet.ip_src == self.client_ip and packet.sport == self.client_port:
             return False
